@@ -256,8 +256,9 @@ public:
         (desc[0] != ']' && desc[0] != '[') || (pdp >= dc))
       throw Exception("Constraints::readDescription. Wrong description:" + desc);
 
-    std::string deb = desc.substr(1, pdp - 1);
-    std::string fin = desc.substr(pdp + 1, dc - pdp - 1);
+    // The blanks written by getDescription() around the bounds are not part of the numbers.
+    std::string deb = TextTools::removeSurroundingWhiteSpaces(desc.substr(1, pdp - 1));
+    std::string fin = TextTools::removeSurroundingWhiteSpaces(desc.substr(pdp + 1, dc - pdp - 1));
 
     inclLowerBound_ = (desc[0] == '[');
     inclUpperBound_ = (desc[dc] == ']');
